@@ -26,6 +26,13 @@ inductive Value where
 /-- one int64 unit expressed in float units (2^1074). -/
 def scale : Int := 2 ^ 1074
 
+/-- the float units `u` (an integer multiple of 2^-1074) denote a finite float64: at most 53 significant
+bits (`Nat.log2 n` = position of the leading bit; the bits below position `log2 n - 52` must be zero) and
+magnitude below 2^1024 (= 2^2098 units; the largest float64 is (2^53-1)·2^971). -/
+def isFloat64Units (u : Int) : Bool :=
+  let n := u.natAbs
+  n == 0 || (decide (n < 2 ^ 2098) && (decide (n.log2 < 53) || n % 2 ^ (n.log2 - 52) == 0))
+
 /-- `value.IntCompare` / `value.FloatCompare` on exact numbers. -/
 def cmpInt (a b : Int) : Ordering :=
   if a > b then .gt else if a < b then .lt else .eq
@@ -132,13 +139,46 @@ def FieldList.compare (a b : FieldList) : Ordering := Value.compareFields a b
 def FieldList.equals (a b : FieldList) : Bool := Value.equalsFields a b
 def FieldList.less (a b : FieldList) : Bool := FieldList.compare a b == .lt
 
-/-- insertion of one entry into a key-sorted entry list (stable: equal names keep arrival order) -/
+/-- insertion of one entry into a key-sorted entry list, AFTER the entries with an equal name (used
+where entries arrive first to last, `mergeNode` on maps: equal names keep arrival order) -/
 def insertField (e : String × Value) : List (String × Value) → List (String × Value)
   | [] => [e]
   | x :: xs => if e.1 < x.1 then e :: x :: xs else x :: insertField e xs
 
-/-- `FieldList.Sort` (stable sort by name). -/
-def FieldList.sort (l : FieldList) : FieldList := l.foldr insertField []
+/-- insertion of one entry into a key-sorted entry list, BEFORE the first entry whose name is not
+smaller (the step of `FieldList.sort`, which feeds the entries last to first) -/
+def insertFieldFirst (e : String × Value) : List (String × Value) → List (String × Value)
+  | [] => [e]
+  | x :: xs => if x.1 < e.1 then x :: insertFieldFirst e xs else e :: x :: xs
+
+/-- `FieldList.Sort` (value/fields.go:35-48): a STABLE sort by name — entries with equal names keep
+their arrival order (`[b=1,a=2,a=3]` becomes `[a=2,a=3,b=1]`). -/
+def FieldList.sort (l : FieldList) : FieldList := l.foldr insertFieldFirst []
+
+example : FieldList.sort [("a", .int 1), ("a", .int 2)] = [("a", .int 1), ("a", .int 2)] := by
+  simp [FieldList.sort, insertFieldFirst]
+example : FieldList.sort [("b", .int 1), ("a", .int 2), ("a", .int 3)] =
+    [("a", .int 2), ("a", .int 3), ("b", .int 1)] := by
+  simp [FieldList.sort, insertFieldFirst]
+
+/-- `obj[field] = elem` on a Go map, seen as a key-sorted repeat-free entry list: the entry goes to its
+place in key order; an entry of the same key is REPLACED -/
+def goMapInsert (e : String × Value) : List (String × Value) → List (String × Value)
+  | [] => [e]
+  | x :: xs =>
+    if e.1 < x.1 then e :: x :: xs
+    else if e.1 == x.1 then e :: xs
+    else x :: goMapInsert e xs
+
+/-- the canonical form of the members of a JSON object read into a Go map: entries sorted by key, of
+repeated keys the LAST one kept -/
+def goMapFields (m : List (String × Value)) : List (String × Value) :=
+  m.foldl (fun acc e => goMapInsert e acc) []
+
+example : goMapFields [("b", .int 1), ("a", .int 2)] = [("a", .int 2), ("b", .int 1)] := by
+  simp [goMapFields, goMapInsert]
+example : goMapFields [("a", .int 1), ("a", .int 2)] = [("a", .int 2)] := by
+  simp [goMapFields, goMapInsert]
 
 /-! ### Kind predicates used by the typed walkers -/
 
